@@ -644,11 +644,12 @@ class MockCA:
             return {"status": 201, "body": self.order_body(oid), "location": self.url("/order/" + oid)}
         if kind == "authz":
             aid = path.split("/")[-1]
+            self.async_poll(aid)   # no-op unless opts validate_after_polls / validate_delay_s
             with self.lock:
                 a = self.authzs.get(aid)
                 if a is None:
                     return self.problem(404, "malformed", "no such authz")
-                if a["status"] == "processing":
+                if a["status"] == "processing" and not a.get("async"):
                     if a["polls"] >= o["polls_before_valid"]:
                         a["status"] = "valid"
                         for c in a["challs"]:
@@ -667,6 +668,8 @@ class MockCA:
                 rec["challenge_type"] = c["type"]
                 rec["challenge_ident"] = a["orig"]
                 acct_jwk = self.accounts[kid]["jwk"]
+            if self.async_on():
+                return self.async_begin(cid, c, a, acct_jwk, rec)
             # validating mode: a conforming CA checks the proof now (outside the lock: it may block)
             verdict = None
             if self.validator is not None:
@@ -800,6 +803,67 @@ class MockCA:
         elif self.o.get("wildcard_false_explicit"):
             b["wildcard"] = False
         return b
+
+    # ------------------------------------------------------------------ asynchronous validation
+    # opts["validate_after_polls"] = k: the challenge POST is answered "processing" at once and the
+    # validator runs when the authorization is polled for the k-th time (inside that poll's handler);
+    # opts["validate_delay_s"] = x: a background thread runs the validator x seconds after the POST was
+    # answered, while the client polls.  The code under test polls WITHOUT pausing in the hooked build
+    # (20 tries): while such a validation is in progress every poll is held a little (0.1 s for the first
+    # five polls, 1.5 s afterwards, cut short as soon as the verdict is there).  Both unset: nothing changes.
+    def async_on(self):
+        return self.validator is not None and bool(self.o.get("validate_after_polls")
+                                                   or self.o.get("validate_delay_s"))
+
+    def async_begin(self, cid, c, a, acct_jwk, rec):
+        with self.lock:
+            c["status"] = "processing"
+            start = False
+            if a["status"] == "pending":
+                a["status"] = "processing"
+                a["async"] = {"cid": cid, "jwk": acct_jwk, "polls": 0, "state": "waiting", "rec": rec,
+                              "done": threading.Event()}
+                start = bool(self.o.get("validate_delay_s"))
+            body = self.chall_body(cid)
+        rec["validation"] = {"deferred": True}
+        if start:
+            threading.Thread(target=self.async_validate, args=(a, float(self.o["validate_delay_s"])),
+                             daemon=True).start()
+        return {"status": 200, "body": body}
+
+    def async_validate(self, a, delay=0.0):
+        st = a["async"]
+        with self.lock:
+            if st["state"] != "waiting":
+                return
+            st["state"] = "running"
+        if delay:
+            time.sleep(delay)
+        c = self.challs[st["cid"]]
+        try:
+            verdict = self.validator(self, a, c, st["jwk"])
+        except Exception as ex:   # a crashing validator must not look like a CA fault
+            verdict = {"ok": False, "error": "validator: %r" % ex}
+        st["rec"]["validation"] = verdict
+        with self.lock:
+            c["status"] = a["status"] = "valid" if verdict.get("ok") else "invalid"
+            st["state"] = "done"
+        st["done"].set()
+
+    def async_poll(self, aid):
+        with self.lock:
+            a = self.authzs.get(aid)
+            st = a.get("async") if a else None
+            if not st or st["state"] == "done":
+                return
+            st["polls"] += 1
+            k = self.o.get("validate_after_polls") or 0
+            run = bool(k) and st["polls"] >= k and st["state"] == "waiting"
+            hold = 0.1 if st["polls"] <= 5 else 1.5
+        if run:
+            self.async_validate(a)
+        elif st["state"] == "running":
+            st["done"].wait(hold)
 
     # ------------------------------------------------------------------ answer
     def send(self, rq, ans, rec, method):
